@@ -446,10 +446,14 @@ def register_numpy():
             try:
                 try:
                     # string fast-path
+                    # prefix the element lengths: joining alone is not injective
+                    # (['a-b', 'c'] and ['a', 'b-c'] would collide)
                     data = hash_buffer_hex(
-                        "-".join(x.flat).encode(
-                            encoding="utf-8", errors="surrogatepass"
-                        )
+                        (
+                            ",".join([str(len(s)) for s in x.flat])
+                            + "|"
+                            + "-".join(x.flat)
+                        ).encode(encoding="utf-8", errors="surrogatepass")
                     )
                 except UnicodeDecodeError:
                     # bytes fast-path
